@@ -13,6 +13,8 @@ and, after every action, on every configured port:
     a failing start raises OSError and leaves is_running and the listening set as before the call;
     stop never raises; a body exception propagates and the bridge is stopped.
 A breadth-first search over (model state, bridge object fingerprint) runs to a fixpoint.
+Twin bridges: two bridges in one process (each on its own port), all sequences of their starts and stops to
+depth 4 (6): one bridge's start/stop never changes the other's flag, port or deliveries.
 In-flight datagrams: one user task starts the bridge, sends 1..3 broadcasts, lets k = 0..8 (thorough 16)
 loop cycles pass and stops (or leaves the context); the deliveries made by the time stop returned are
 final - every k is executed, so a delivery deferred past stop by any number of cycles is seen.
@@ -364,6 +366,68 @@ def inflight(res, nports, k, how, ndg):
             bw.close()
 
 
+def twin(res, actions):
+    """Two bridges in one process and one loop, each on its own port: what one does must not touch the other."""
+    set_zone("UTC")
+    case = {"part": "twin", "actions": actions}
+    ports = port_block().ports[:2]
+    with Clock(1_700_000_000.0), Capture():
+        a = BridgeWorld(1, ports=[ports[0]])
+        b = BridgeWorld(1, loop=a.loop, ports=[ports[1]])
+        bw = {"A": a, "B": b}
+        running = {"A": False, "B": False}
+        nprobe = [0]
+        try:
+            for n, act in enumerate(actions):
+                who, what = act[-1], act[:-1]
+                w = bw[who]
+                out = w.run(w.bridge.start() if what == "start" else w.bridge.stop())
+                tag = f"after action #{n} {act} of {actions}"
+                if what == "start":
+                    if running[who]:
+                        if out[0] != "exc" or not isinstance(out[1], OSError):
+                            res.violation("failing-start-does-not-raise", case, f"{tag}: second start -> {out[0]} {out[1]!r}")
+                            return
+                        if w.bridge.is_running is False:
+                            running[who] = False
+                    elif out[0] != "ok":
+                        res.violation("start-fails", case, f"{tag}: {out[0]} {out[1]!r}")
+                        return
+                    else:
+                        running[who] = True
+                else:
+                    if out[0] != "ok":
+                        res.violation("stop-raises", case, f"{tag}: {out[0]} {out[1]!r}")
+                        return
+                    running[who] = False
+                a.settle()
+                for name in ("A", "B"):
+                    x = bw[name]
+                    if x.bridge.is_running is not running[name]:
+                        res.violation("twin:is-running", case, f"{tag}: bridge {name} is_running={x.bridge.is_running}, expected {running[name]}")
+                        return
+                    free = can_bind(x.ports[0])
+                    if free == running[name]:
+                        res.violation("twin:port", case, f"{tag}: bridge {name}'s port is {'free' if free else 'bound'} although {name} is {'running' if running[name] else 'stopped'}")
+                        return
+                    nprobe[0] += 1
+                    n0 = len(x.calls)
+                    other0 = len(bw["B" if name == "A" else "A"].calls)
+                    x.send(x.ports[0], B.encode("V4", name="t%d" % nprobe[0]))
+                    a.settle()
+                    got = len(x.calls) - n0
+                    if got != (1 if running[name] else 0) or len(bw["B" if name == "A" else "A"].calls) != other0:
+                        res.violation("twin:delivery", case, f"{tag}: broadcast to bridge {name} ({'running' if running[name] else 'stopped'}) -> {got} callbacks on {name}, {len(bw['B' if name == 'A' else 'A'].calls) - other0} on the other bridge")
+                        return
+        finally:
+            for x in (a, b):
+                try:
+                    x.run(x.bridge.stop())
+                except Exception:  # noqa: BLE001
+                    pass
+            a.loop.finish()
+
+
 def plan(tier):
     return [(1, 4 if tier == "quick" else 6), (2, 4 if tier == "quick" else 5)] + ([(3, 4)] if tier == "thorough" else [(3, 3)])
 
@@ -380,6 +444,7 @@ def jobs(tier, seed):
         js.append({"part": "bfs", "nports": nports})
     js.append({"part": "four"})
     js.append({"part": "inflight", "tier": tier})
+    js.append({"part": "twin", "depth": 4 if tier == "quick" else 6})
     return js
 
 
@@ -388,6 +453,15 @@ def run_job(job):
     if job["part"] == "bfs":
         closed, n, d = bfs(job["nports"], res)
         res.add("bfs", (job["nports"], closed, n, d))
+        return res
+    if job["part"] == "twin":
+        acts = ["startA", "stopA", "startB", "stopB"]
+        for n in range(1, job["depth"] + 1):
+            for seq in itertools.product(acts, repeat=n):
+                twin(res, list(seq))
+                res.traces += 1
+                res.case(("twin", seq))
+        res.sample({"part": "twin", "actions": ["startA", "startB", "stopA"], "expect": "B keeps delivering, A's port is free"})
         return res
     if job["part"] == "inflight":
         for nports in (1, 2):
@@ -423,6 +497,9 @@ def run_job(job):
 
 def replay(case):
     res = Res()
+    if case.get("part") == "twin":
+        twin(res, case["actions"])
+        return res.violations
     if case.get("part") == "inflight":
         inflight(res, case["nports"], case["k"], case["how"], case["ndg"])
         return res.violations
